@@ -4,6 +4,7 @@ pub mod c01;
 pub mod c02;
 pub mod c03;
 pub mod c04;
+pub mod c05;
 pub mod c06;
 pub mod c07;
 pub mod c08;
@@ -22,6 +23,7 @@ pub fn registry() -> Vec<Box<dyn DynProp>> {
         Box::new(Erased::<c02::C02>::new()),
         Box::new(Erased::<c03::C03>::new()),
         Box::new(Erased::<c04::C04>::new()),
+        Box::new(Erased::<c05::C05>::new()),
         Box::new(Erased::<c06::C06>::new()),
         Box::new(Erased::<c07::C07>::new()),
         Box::new(Erased::<c08::C08>::new()),
